@@ -92,6 +92,8 @@ UserFns == [
   U_ID     |-> Fn("U_ID", N_id, <<A>>, A, FALSE),
   U_PICK   |-> Fn("U_PICK", N_pick, <<A, A>>, A, FALSE),          \* first argument
   U_H      |-> Fn("U_H", N_h, <<ObjAB>>, TNum, FALSE),            \* field a, by name
+  U_HN     |-> Fn("U_HN", N_hn, <<TObj(<<Fld(N_o, ObjAB)>>)>>, TNum, FALSE),      \* o.a of a record nested in a record (monomorphic)
+  U_HNP    |-> Fn("U_HNP", N_hn, <<A>>, TStr, FALSE),             \* hn :: a -> str = "P" (polymorphic: tried after the monomorphic one)
   U_F      |-> Fn("U_F", N_f, <<TList(TNum), TList(TNum)>>, TNum, FALSE),   \* len + len
   U_LIF    |-> Fn("U_LIF", N_lif, <<TBool, A, A>>, A, TRUE),      \* lazy, like if
   U_TWICE  |-> Fn("U_TWICE", N_twice, <<A>>, A, TRUE),            \* forces its thunk twice
@@ -223,6 +225,8 @@ ApplyBuiltin(id, a) ==
     [] id = "U_ID" -> PV(a[1])
     [] id = "U_PICK" -> PV(a[1])
     [] id = "U_H" -> PV(a[1].vals[FieldIdx(a[1].ty.fs, N_a)])
+    [] id = "U_HN" -> LET o == a[1].vals[FieldIdx(a[1].ty.fs, N_o)] IN PV(o.vals[FieldIdx(o.ty.fs, N_a)])
+    [] id = "U_HNP" -> PV(VStr(<<80>>))
     [] id = "U_F" -> PNum(NInt(Len(a[1].els) + Len(a[2].els)))
     [] id = "U_NOT" -> PV(VBool(~a[1].v))
     [] id = "U_PAIR" -> PV(VList(TList(TNum), <<a[1], a[2]>>))
